@@ -662,6 +662,10 @@ func (c *trCtx) boolStmts(ss []ast.Stmt, ind string) string {
 		if id, ok := e.(*ast.Ident); ok && (id.Name == "true" || id.Name == "false") {
 			return id.Name
 		}
+		// a < b on strings: byte-wise lexicographic order
+		if be, ok := e.(*ast.BinaryExpr); ok && be.Op == token.LSS {
+			return "(lex_ltb " + c.expr(be.X) + " " + c.expr(be.Y) + ")"
+		}
 		return "(" + c.fail("return of something else than true or false") + " : bool)"
 	}
 	switch x := ss[0].(type) {
@@ -711,6 +715,58 @@ func genBoolFns(repo, out string) {
 	if !found {
 		c.fail("no function isRelevantForPackager in files/files.go")
 	}
+	// Contents.Less: a, b := c[i], c[j]; if a.X != b.X { return a.X < b.X } ...; return a.Z < b.Z
+	lc := &trCtx{consts: map[string]string{}, eqSeqb: true}
+	lessBody := "false"
+	lessFound := false
+	for _, d := range f.Decls {
+		fd, ok := d.(*ast.FuncDecl)
+		if !ok || fd.Name.Name != "Less" || fd.Recv == nil || fd.Body == nil || len(fd.Body.List) < 2 {
+			continue
+		}
+		lessFound = true
+		first, ok := fd.Body.List[0].(*ast.AssignStmt)
+		if !ok || first.Tok != token.DEFINE || len(first.Lhs) != 2 || len(first.Rhs) != 2 {
+			lc.fail("Less does not start with a, b := c[i], c[j]")
+			break
+		}
+		na, nb := first.Lhs[0].(*ast.Ident).Name, first.Lhs[1].(*ast.Ident).Name
+		for k, want := range []string{"i", "j"} {
+			ix, ok := first.Rhs[k].(*ast.IndexExpr)
+			if !ok {
+				lc.fail("Less does not start with a, b := c[i], c[j]")
+				break
+			}
+			if id, ok := ix.Index.(*ast.Ident); !ok || id.Name != fd.Type.Params.List[0].Names[k].Name || want == "" {
+				lc.fail("Less compares other elements than the two it is asked about")
+			}
+		}
+		lc.sel = func(se *ast.SelectorExpr) string {
+			id, ok := se.X.(*ast.Ident)
+			if !ok || (id.Name != na && id.Name != nb) {
+				return ""
+			}
+			v := "a"
+			if id.Name == nb {
+				v = "b"
+			}
+			switch se.Sel.Name {
+			case "Destination":
+				return "(c_dst " + v + ")"
+			case "Type":
+				return "(c_typ " + v + ")"
+			case "Packager":
+				return "(c_pkgr " + v + ")"
+			case "Source":
+				return "(c_src " + v + ")"
+			}
+			return ""
+		}
+		lessBody = lc.boolStmts(fd.Body.List[1:], "  ")
+	}
+	if !lessFound {
+		lc.fail("no method Less in files/files.go")
+	}
 	var b strings.Builder
 	b.WriteString("(* GENERATED from /repo (files/files.go) on every run by translators/strfn.go (genBoolFns) - do not edit *)\n")
 	b.WriteString("From Coq Require Import List String Bool.\nFrom Coq Require Import Strings.Byte.\nFrom NfpmV Require Import Lib.Bytes Model.Content.\nImport ListNotations.\nOpen Scope bool_scope.\n\n")
@@ -718,6 +774,11 @@ func genBoolFns(repo, out string) {
 		fmt.Fprintf(&b, "(* isRelevantForPackager: UNTRANSLATABLE - %s *)\nDefinition src_is_relevant (v_packager : str) (c : content) : bool := false.\nDefinition src_is_relevant_translated : bool := false.\n", c.err)
 	} else {
 		fmt.Fprintf(&b, "(* func isRelevantForPackager(packager string, content *Content) bool *)\nDefinition src_is_relevant (v_packager : str) (c : content) : bool :=\n  %s.\nDefinition src_is_relevant_translated : bool := true.\n", body)
+	}
+	if lc.err != "" {
+		fmt.Fprintf(&b, "\n(* Contents.Less: UNTRANSLATABLE - %s *)\nDefinition src_content_less (a b : content) : bool := false.\nDefinition src_content_less_translated : bool := false.\n", lc.err)
+	} else {
+		fmt.Fprintf(&b, "\n(* func (c Contents) Less(i, j int) bool, on the two entries a = c[i], b = c[j] *)\nDefinition src_content_less (a b : content) : bool :=\n  %s.\nDefinition src_content_less_translated : bool := true.\n", lessBody)
 	}
 	writeIfChanged(filepath.Join(out, "BoolFns.v"), b.String())
 }
